@@ -1,2 +1,154 @@
-(* placeholder while the proofs are being written *)
-From EpyV Require Import Model.Loci.
+(* C01 - loci always equal the sets they are declared to track.
+   Only statements here; the proofs are in Proofs/LociBase.v, LociLocus.v, LociInv.v.
+
+   The model (Model/Loci.v) is the loci machinery of CompartmentedModel with the repairs F9
+   (removeNode also removes the node's edges from the edge loci) and F10 (an edge leaving an
+   edge locus is discarded in both orientations) applied.  [truth sp s] is the set the property
+   names, computed from the network state alone; [Inv tbl s] says that every locus is
+   duplicate-free and has exactly the elements of its truth (stored left endpoint first);
+   [preb s o] is what the real code also requires of a call (the node exists and has a
+   compartment attribute, the edge exists, setCompartment/addNode are used on a node without a
+   compartment as their docstrings say). *)
+From Coq Require Import List ZArith Bool Arith QArith.
+From EpyV Require Import Model.Loci Proofs.LociBase Proofs.LociLocus Proofs.LociInv.
+Import ListNotations.
+Close Scope Q_scope.
+
+(* every one of the six operations preserves the invariant, for every table of loci in which no
+   pair of compartments can match in both orientations *)
+Theorem C01_inv_ops : forall tbl s o, wf_loci tbl = true -> single_orientation tbl = true ->
+  Inv tbl s -> preb s o = true -> Inv tbl (step tbl s o).
+Proof. exact inv_step. Qed.
+
+(* hence it holds after set-up (every node's compartment None, then initialCompartments as
+   changeCompartment calls) and after every history of valid calls *)
+Theorem C01_inv_history : forall tbl, wf_loci tbl = true -> single_orientation tbl = true ->
+  forall nodes edges init ops, graph_okb nodes edges = true ->
+  forallb (fun nc => zmem (fst nc) nodes) init = true ->
+  validb tbl (setup tbl nodes edges init) ops = true ->
+  Inv tbl (fold_left (step tbl) ops (setup tbl nodes edges init)).
+Proof.
+  intros tbl Hwf Hs nodes edges init ops Hg Hi Hv. apply inv_history; try assumption.
+  rewrite validb_app. fold (setup tbl nodes edges init). rewrite Hv, (setup_valid tbl nodes edges init Hi). reflexivity.
+Qed.
+
+(* ... at every point at which user code can observe the simulation, not only at the end *)
+Theorem C01_inv_every_point : forall tbl, wf_loci tbl = true -> single_orientation tbl = true ->
+  forall nodes edges init ops k, graph_okb nodes edges = true ->
+  forallb (fun nc => zmem (fst nc) nodes) init = true ->
+  validb tbl (setup tbl nodes edges init) ops = true ->
+  Inv tbl (fold_left (step tbl) (firstn k ops) (setup tbl nodes edges init)).
+Proof.
+  intros tbl Hwf Hs nodes edges init ops k Hg Hi Hv. apply C01_inv_history; try assumption.
+  rewrite <- (firstn_skipn k ops), validb_app in Hv. apply andb_true_iff in Hv. exact (proj1 Hv).
+Qed.
+
+(* the per-element event rate is the probability times the true number of eligible elements *)
+Theorem C01_rate : forall tbl s i (p : Q), Inv tbl s -> i < length tbl ->
+  rate p (nth i (st_loci s) []) = Qmult p (inject_Z (Z.of_nat (length (truth (nth i tbl default_spec) s)))).
+Proof.
+  intros tbl s i p [_ [_ H]] Hi. destruct (H i Hi) as [H1 H2]. unfold rate.
+  rewrite (NoDup_same_length _ _ H1 (truth_NoDup _ s) H2). reflexivity.
+Qed.
+
+(* nothing that has left the network or the tracked condition remains drawable *)
+Theorem C01_nothing_stale : forall tbl s i x, Inv tbl s -> i < length tbl -> In x (nth i (st_loci s) []) ->
+  match x with N v => In v (st_nodes s) | E a b => adjb (st_edges s) a b = true end
+  /\ In x (truth (nth i tbl default_spec) s).
+Proof.
+  intros tbl s i x [_ [_ H]] Hi Hx. destruct (H i Hi) as [_ H2]. apply H2 in Hx. split; [|exact Hx].
+  apply truth_In in Hx. destruct (spec_cases (nth i tbl default_spec)) as [[c Hsp]|He].
+  - rewrite Hsp in Hx. destruct x as [v|a b]; [exact (proj1 Hx) | destruct Hx].
+  - destruct x as [v|a b]; [exact (False_ind _ (truthP_edge_N _ _ v He Hx))|].
+    apply (truthP_edge _ _ a b He) in Hx. exact (proj1 Hx).
+Qed.
+
+(* the contents of a locus are a function of the network state alone *)
+Theorem C01_state_function : forall tbl s s' i x, Inv tbl s -> Inv tbl s' -> same_network s s' -> i < length tbl ->
+  (In x (nth i (st_loci s) []) <-> In x (nth i (st_loci s') [])).
+Proof.
+  intros tbl s s' i x [G [_ H]] [G' [_ H']] Hn Hi. destruct (H i Hi) as [_ H2]. destruct (H' i Hi) as [_ H2'].
+  rewrite H2, H2', !truth_In. symmetry. apply truthP_network; assumption.
+Qed.
+
+(* ---------- loci in which a pair can match in both orientations (Opinion's PPT) ---------- *)
+(* what WInv says, in terms of truth: sound, left endpoint first, complete up to orientation *)
+Theorem C01_weak_meaning : forall tbl s i, WInv tbl s -> i < length tbl ->
+  let l := nth i (st_loci s) [] in let t := truth (nth i tbl default_spec) s in
+  NoDup l /\ (forall x, In x l -> In x t) /\ (forall x, In x t -> In x l \/ In (flip x) l).
+Proof.
+  intros tbl s i [_ [_ H]] Hi. destruct (H i Hi) as [H1 [H2 H3]]. cbv zeta. split; [exact H1|]. split.
+  - intros x Hx. apply truth_In, H2, Hx.
+  - intros x Hx. apply H3, truth_In, Hx.
+Qed.
+
+Theorem C01_weak_ops : forall tbl s o, wf_loci tbl = true -> WInv tbl s -> preb s o = true -> WInv tbl (step tbl s o).
+Proof. exact winv_step. Qed.
+
+Theorem C01_weak_history : forall tbl, wf_loci tbl = true ->
+  forall nodes edges init ops, graph_okb nodes edges = true ->
+  forallb (fun nc => zmem (fst nc) nodes) init = true ->
+  validb tbl (setup tbl nodes edges init) ops = true ->
+  WInv tbl (fold_left (step tbl) ops (setup tbl nodes edges init)).
+Proof.
+  intros tbl Hwf nodes edges init ops Hg Hi Hv. apply weak_history; try assumption.
+  rewrite validb_app. fold (setup tbl nodes edges init). rewrite Hv, (setup_valid tbl nodes edges init Hi). reflexivity.
+Qed.
+
+(* for tables with a single orientation the weak invariant is the strong one *)
+Theorem C01_weak_is_strong : forall tbl s, single_orientation tbl = true -> (WInv tbl s <-> Inv tbl s).
+Proof. intros tbl s H. split; [apply WInv_Inv; exact H | apply Inv_WInv]. Qed.
+
+(* Opinion: G = 1, P = 2, T = 3; loci G, P, T, GP, PPT as Opinion.build registers them
+   (tie A checks on every run that this is the table extracted from the code) *)
+Definition opinion_tbl : list spec :=
+  [NodeLocus 1; NodeLocus 2; NodeLocus 3; EdgeLocus 1 2; MultiEdgeLocus 2 [2; 3]]%Z.
+
+(* known finding (F10, orientation part): on a spreader-spreader edge PPT holds the pair in the
+   orientation "who became a spreader last"; two valid histories from the same set-up state reach
+   the same network state with different contents, and the strong invariant fails *)
+Theorem C01_strong_refuted :
+  exists ops1 ops2,
+    let s0 := setup opinion_tbl [0; 1]%Z [(0, 1)]%Z [(0, 1); (1, 1)]%Z in
+    let s1 := fold_left (step opinion_tbl) ops1 s0 in
+    let s2 := fold_left (step opinion_tbl) ops2 s0 in
+    wf_loci opinion_tbl = true /\ validb opinion_tbl s0 ops1 = true /\ validb opinion_tbl s0 ops2 = true
+    /\ same_network s1 s2
+    /\ nth 4 (st_loci s1) [] = [E 1 0]%Z /\ nth 4 (st_loci s2) [] = [E 0 1]%Z
+    /\ ~ Inv opinion_tbl s1.
+Proof.
+  exists [ChangeC 0 2; ChangeC 1 2]%Z, [ChangeC 1 2; ChangeC 0 2]%Z. cbv zeta.
+  split; [vm_compute; reflexivity|]. split; [vm_compute; reflexivity|]. split; [vm_compute; reflexivity|].
+  split; [apply same_networkb_spec; vm_compute; reflexivity|].
+  split; [vm_compute; reflexivity|]. split; [vm_compute; reflexivity|].
+  intros [_ [_ H]]. destruct (H 4) as [_ H2]; [cbn; repeat constructor|].
+  specialize (H2 (E 0 1)%Z). destruct H2 as [_ H2].
+  assert (Hc : In (E 0 1)%Z [E 1 0]%Z).
+  { replace [E 1 0]%Z with (nth 4 (st_loci (fold_left (step opinion_tbl) [ChangeC 0 2; ChangeC 1 2]%Z
+        (setup opinion_tbl [0; 1]%Z [(0, 1)]%Z [(0, 1); (1, 1)]%Z))) []) by (vm_compute; reflexivity).
+    apply H2. vm_compute. tauto. }
+  destruct Hc as [Hc|[]]. discriminate.
+Qed.
+
+(* ---------- non-vacuity ---------- *)
+(* SIR: S = 1, I = 2, R = 3; loci SI (edges S-I) and I, as SIR.build registers them.  A triangle
+   S/I/I, then a history with every kind of call, including removing a node that still has edges,
+   a self-loop and a node added without a compartment *)
+Definition sir_tbl : list spec := [EdgeLocus 1 2; NodeLocus 2]%Z.
+
+Example C01_example_triangle :
+  let s0 := setup sir_tbl [0; 1; 2]%Z [(0, 1); (1, 2); (2, 0)]%Z [(0, 1); (1, 2); (2, 2)]%Z in
+  let ops := [ChangeC 0 2; ChangeC 1 3; AddNode 3 (Some 1); AddEdge 3 0; AddEdge 2 3; RemoveNode 0; ChangeC 3 1;
+              RemoveEdge 3 2; AddEdge 3 3; AddNode 4 None; SetC 4 1; AddEdge 2 4]%Z in
+  wf_loci sir_tbl = true /\ single_orientation sir_tbl = true
+  /\ graph_okb [0; 1; 2]%Z [(0, 1); (1, 2); (2, 0)]%Z = true
+  /\ forallb (fun nc => zmem (fst nc) [0; 1; 2]%Z) [(0, 1); (1, 2); (2, 2)]%Z = true
+  /\ validb sir_tbl s0 ops = true
+  /\ st_loci s0 = [[E 0 1; E 0 2]; [N 1; N 2]]%Z
+  /\ st_loci (fold_left (step sir_tbl) (firstn 5 ops) s0) = [[E 3 0; E 3 2]; [N 2; N 0]]%Z
+  /\ st_loci (fold_left (step sir_tbl) ops s0) = [[E 4 2]; [N 2]]%Z
+  /\ Inv sir_tbl (fold_left (step sir_tbl) ops s0).
+Proof.
+  cbv zeta. repeat (split; [vm_compute; reflexivity|]).
+  apply C01_inv_history; vm_compute; reflexivity.
+Qed.
